@@ -67,7 +67,15 @@ func c03Funs(thorough bool) []c03Fun {
 			"mkg = () -> {\n  k = 7\n  yield () -> k\n  k = 8\n  yield () -> k\n}",
 			"firstd = () -> for c <- mkg() return c",
 			"f = (a) -> {\n  g = firstd()\n  before = g()\n  s = 0\n  for x, y <- fromto(0, a), elems(\"abc\") s = s + x\n  for x <- map(dbl, () -> fromto(0, a)) s = s + x\n  [before, g(), s]\n}"}, []string{"3"}},
+		{"zip-of-composed-generators", []string{"f = (a) -> {\n  s = 0\n  for x, y <- evens(a), evens(a + 2) s = s * 100 + x * 10 + y\n  s\n}"}, []string{"6"}},
+		{"closure-built-before-update-after-deep-call", []string{"f = (a) -> {\n  bias = 0\n  g = (v) -> v * a + bias\n  bias = deeplb(50)\n  h = g\n  h(2)\n}"}, []string{"3"}},
 		{"errors-inside", []string{"f = (a) -> {\n  r = 0\n  for i <- fromto(0, 3) r = r + a / (i + 1)\n  r\n}"}, []string{"12"}},
+	}
+	// a captured variable updated after the stack grew inside frames with 1..4 locals of their own (the growth then
+	// happens while the callee's locals are laid out, not while an operand is pushed)
+	for k := 1; k <= 4; k++ {
+		fs = append(fs, c03Fun{fmt.Sprintf("captured-updated-after-deep-call-with-%d-locals", k),
+			[]string{fmt.Sprintf("f = (a) -> {\n  x = a\n  g = () -> x\n  t = deepl%c(60)\n  x = x + 1\n  g()\n}", 'a'+k-1)}, []string{"3"}})
 	}
 	// every expression body of at most 2 (quick) / 3 (thorough) nodes over the parameter and small constants
 	g := &gen.Grammar{Leaves: []gen.T{gen.N("a"), gen.I(1), gen.S("s"), gen.L(gen.I(1), gen.I(2))}, BinOps: []string{"+", "*", "<", "=="}, UnOps: []string{"-", "#"}, Calls: []string{"id", "deep"}, Index: true, Lists: true, Funcs: true}
@@ -99,6 +107,13 @@ func c03Prelude() []string {
 		"ab = () -> for x <- fromto(0, 5) if x > 1 return x",
 		"atd = (d, h, v) -> if d <= 0 h(v) else atd(d - 1, h, v)",
 		"lsum = (k) -> {\n  s = 0\n  for i <- fromto(0, k) s = s + i\n  s\n}",
+		"deepla = (n) -> {\n  la = n\n  if n <= 0 0 else 1 + deepla(n - 1)\n}",
+		"deeplb = (n) -> {\n  la = n\n  lb = la\n  if n <= 0 0 else 1 + deeplb(n - 1)\n}",
+		"deeplc = (n) -> {\n  la = n\n  lb = la\n  lc = lb\n  if n <= 0 0 else 1 + deeplc(n - 1)\n}",
+		"deepld = (n) -> {\n  la = n\n  lb = la\n  lc = lb\n  ld = lc\n  if n <= 0 0 else 1 + deepld(n - 1)\n}",
+		"evens = (m) -> for n <- fromto(0, m) if n % 2 == 0 yield n",
+		"firstabove = (xs, lim) -> {\n  for x <- elems(xs) if x > lim return x\n  0\n}",
+		"picks = (rows) -> for r <- elems(rows) yield firstabove(r, 2)",
 	}
 }
 
@@ -130,6 +145,9 @@ func c03Contexts(args string) []c03Ctx {
 		}, same},
 		{"after-abandoned-loop-same-statement", func(c string) []string {
 			return []string{"{\n  t = ab()\n  for q <- fromto(0, 3) if q == 1 return " + c + "\n}"}
+		}, same},
+		{"after-generator-whose-callee-left-its-loop-early-same-statement", func(c string) []string {
+			return []string{"{\n  t = 0\n  for p <- picks([[1, 2], [1, 5, 9]]) t = t + p\n  " + c + "\n}"}
 		}, same},
 		{"after-two-loops-same-statement", func(c string) []string {
 			return []string{"{\n  for q <- fromto(0, 2) for p <- fromto(0, 2) t = q\n  for q <- elems([1]) t = q\n  " + c + "\n}"}
@@ -163,6 +181,7 @@ func c03Histories() [][2]string {
 		{"nested-loops", "for q <- fromto(0, 3) for p <- elems(\"ab\") t = p"},
 		{"abandoned-loop", "ab()"},
 		{"runtime-error", "1 / 0"},
+		{"runtime-error-inside-nested-call", "atd(4, dbl, [1])"},
 		{"parse-error", "1 + )"},
 		{"large-array", "{\n  big = []\n  for q <- fromto(0, 300) big = big + [q]\n  #big\n}"},
 		{"closure-churn", "{\n  cs = []\n  for q <- fromto(0, 50) cs = cs + [() -> q]\n  #cs\n}"},
@@ -225,6 +244,9 @@ func c03Judge(it c03Item) (sig, detail string) {
 	stmts = append(stmts, ctx.Stmts(call)...)
 	o := runImplStmts(stmts, 3000000)
 	want := ctx.Expect(vOnly)
+	if strings.HasPrefix(o, "HARNESS") {
+		return "harness:generated-program-does-not-parse", o
+	}
 	if o != want {
 		return "impure:" + f.Name, fmt.Sprintf("function %s with argument %s: at top level of a fresh session the call gives %s; in context %s after history %v the observation is %s where %s is expected", f.Name, args, vOnly, ctx.Name, hnames, o, want)
 	}
@@ -236,8 +258,11 @@ func runImplStmts(stmts []string, fuel int) string {
 	s := impl.NewSession()
 	last := ""
 	for _, src := range stmts {
-		pr := impl.Parse(src, impl.ParseFuel(len(src)))
+		pr := impl.ParseCached(src)
 		if pr.Err != "" || pr.Panic != "" || pr.FuelOut != "" {
+			if src != "1 + )" {
+				return "HARNESS generated statement does not parse: " + src + ": " + pr.Err + pr.Panic + pr.FuelOut
+			}
 			last = "PARSE-ERROR"
 			continue
 		}
